@@ -340,6 +340,130 @@ fn check_registry(acc: &mut Acc2, w: &W19, limits: &[u32], what: &str) {
     }
 }
 
+/// R4 under removal: read one page, remove the entry the cursor points at, keep paging from that cursor. Whatever is
+/// still registered must be listed exactly once (first-page entries that were not removed + the following pages).
+/// Runs on a snapshot and restores it.
+fn probe_paging_with_removed_cursor(acc: &mut crate::rt::Acc, w: &mut W19, limit: u32, what: &str) {
+    let owner = w.core.owner.clone();
+    let s0 = snap(&w.app);
+    // ---- vaults
+    if w.vaults.len() as u32 > limit {
+        acc.count("check.R4.vaults-paging-after-removing-the-cursor-entry");
+        let first: Result<vfm::VaultsResponse, String> = query(&w.app, &w.core.vault_factory, &vfm::QueryMsg::Vaults { start_after: None, limit: Some(limit) });
+        if let Ok(first) = first {
+            if let Some(last) = first.vaults.last().cloned() {
+                let removed_id = AssetRef::from_info(&last.asset_info).id();
+                if exec(&mut w.app, &owner, &w.core.vault_factory.clone(), &vfm::ExecuteMsg::RemoveVault { asset_info: last.asset_info.clone() }, &[]).is_ok() {
+                    let mut seen: BTreeMap<String, u32> = BTreeMap::new();
+                    for v in first.vaults.iter().filter(|v| AssetRef::from_info(&v.asset_info).id() != removed_id) {
+                        *seen.entry(AssetRef::from_info(&v.asset_info).id()).or_insert(0) += 1;
+                    }
+                    let mut cursor = Some(last.asset_info_reference.clone());
+                    for _ in 0..200 {
+                        let page: Result<vfm::VaultsResponse, String> = query(&w.app, &w.core.vault_factory, &vfm::QueryMsg::Vaults { start_after: cursor.clone(), limit: Some(limit) });
+                        let Ok(page) = page else { break };
+                        if page.vaults.is_empty() {
+                            break;
+                        }
+                        cursor = Some(page.vaults.last().unwrap().asset_info_reference.clone());
+                        let n = page.vaults.len() as u32;
+                        for v in &page.vaults {
+                            *seen.entry(AssetRef::from_info(&v.asset_info).id()).or_insert(0) += 1;
+                        }
+                        if n < limit.min(30) {
+                            break;
+                        }
+                    }
+                    let want: BTreeSet<String> = w.vaults.keys().filter(|k| **k != removed_id).cloned().collect();
+                    let got: BTreeSet<String> = seen.keys().cloned().collect();
+                    if want != got || seen.values().any(|c| *c != 1) {
+                        acc.violation("C19", "R4/vaults-paging-after-removing-the-cursor-entry!=registry", detail(w, json!({"limit": limit, "removed": removed_id, "missing": format!("{:?}", want.difference(&got).collect::<Vec<_>>()), "extra": format!("{:?}", got.difference(&want).collect::<Vec<_>>()), "step": what})));
+                    }
+                }
+            }
+        }
+        restore(&mut w.app, &s0);
+    }
+    // ---- trios
+    if w.trios.len() as u32 > limit {
+        acc.count("check.R4.trios-paging-after-removing-the-cursor-entry");
+        let first: Result<fm::TriosResponse, String> = query(&w.app, &w.core.factory, &fm::QueryMsg::Trios { start_after: None, limit: Some(limit) });
+        if let Ok(first) = first {
+            if let Some(last) = first.trios.last().cloned() {
+                let removed = set_of(&last.asset_infos);
+                if exec(&mut w.app, &owner, &w.core.factory.clone(), &fm::ExecuteMsg::RemoveTrio { asset_infos: last.asset_infos.clone() }, &[]).is_ok() {
+                    let mut seen: BTreeMap<BTreeSet<String>, u32> = BTreeMap::new();
+                    for t in first.trios.iter().filter(|t| set_of(&t.asset_infos) != removed) {
+                        *seen.entry(set_of(&t.asset_infos)).or_insert(0) += 1;
+                    }
+                    let mut cursor = Some(last.asset_infos.clone());
+                    for _ in 0..200 {
+                        let page: Result<fm::TriosResponse, String> = query(&w.app, &w.core.factory, &fm::QueryMsg::Trios { start_after: cursor.clone(), limit: Some(limit) });
+                        let Ok(page) = page else { break };
+                        if page.trios.is_empty() {
+                            break;
+                        }
+                        cursor = Some(page.trios.last().unwrap().asset_infos.clone());
+                        let n = page.trios.len() as u32;
+                        for t in &page.trios {
+                            *seen.entry(set_of(&t.asset_infos)).or_insert(0) += 1;
+                        }
+                        if n < limit.min(30) {
+                            break;
+                        }
+                    }
+                    let want: BTreeSet<BTreeSet<String>> = w.trios.keys().filter(|k| **k != removed).cloned().collect();
+                    let got: BTreeSet<BTreeSet<String>> = seen.keys().cloned().collect();
+                    if want != got || seen.values().any(|c| *c != 1) {
+                        acc.violation("C19", "R4/trios-paging-after-removing-the-cursor-entry!=registry", detail(w, json!({"limit": limit, "removed": format!("{removed:?}"), "missing": format!("{:?}", want.difference(&got).collect::<Vec<_>>()), "extra": format!("{:?}", got.difference(&want).collect::<Vec<_>>()), "step": what})));
+                    }
+                }
+            }
+        }
+        restore(&mut w.app, &s0);
+    }
+    // ---- pairs
+    if w.pairs.len() as u32 > limit {
+        acc.count("check.R4.pairs-paging-after-removing-the-cursor-entry");
+        let first: Result<fm::PairsResponse, String> = query(&w.app, &w.core.factory, &fm::QueryMsg::Pairs { start_after: None, limit: Some(limit) });
+        if let Ok(first) = first {
+            if let Some(last) = first.pairs.last().cloned() {
+                let removed = set_of(&last.asset_infos);
+                if exec(&mut w.app, &owner, &w.core.factory.clone(), &fm::ExecuteMsg::RemovePair { asset_infos: last.asset_infos.clone() }, &[]).is_ok() {
+                    let mut seen: BTreeMap<BTreeSet<String>, u32> = BTreeMap::new();
+                    for t in first.pairs.iter().filter(|t| set_of(&t.asset_infos) != removed) {
+                        *seen.entry(set_of(&t.asset_infos)).or_insert(0) += 1;
+                    }
+                    let mut cursor = Some(last.asset_infos.clone());
+                    for _ in 0..200 {
+                        let page: Result<fm::PairsResponse, String> = query(&w.app, &w.core.factory, &fm::QueryMsg::Pairs { start_after: cursor.clone(), limit: Some(limit) });
+                        let Ok(page) = page else { break };
+                        if page.pairs.is_empty() {
+                            break;
+                        }
+                        cursor = Some(page.pairs.last().unwrap().asset_infos.clone());
+                        let n = page.pairs.len() as u32;
+                        for t in &page.pairs {
+                            *seen.entry(set_of(&t.asset_infos)).or_insert(0) += 1;
+                        }
+                        if n < limit.min(30) {
+                            break;
+                        }
+                    }
+                    let want: BTreeSet<BTreeSet<String>> = w.pairs.keys().filter(|k| **k != removed).cloned().collect();
+                    let got: BTreeSet<BTreeSet<String>> = seen.keys().cloned().collect();
+                    // the known key collision of prefix-related denoms makes a removal hit a foreign entry: not judged here
+                    let collision_family = removed.iter().any(|d| ["abc", "defg", "abcd", "efg"].contains(&d.as_str()));
+                    if !collision_family && (want != got || seen.values().any(|c| *c != 1)) {
+                        acc.violation("C19", "R4/pairs-paging-after-removing-the-cursor-entry!=registry", detail(w, json!({"limit": limit, "removed": format!("{removed:?}"), "missing": format!("{:?}", want.difference(&got).collect::<Vec<_>>()), "extra": format!("{:?}", got.difference(&want).collect::<Vec<_>>()), "step": what})));
+                    }
+                }
+            }
+        }
+        restore(&mut w.app, &s0);
+    }
+}
+
 struct Acc2<'a>(&'a mut crate::rt::Acc);
 
 fn history(acc: &mut crate::rt::Acc, r: &mut Rng, steps: u64, thorough: bool) {
@@ -596,6 +720,10 @@ fn history(acc: &mut crate::rt::Acc, r: &mut Rng, steps: u64, thorough: bool) {
         }
         let lim: Vec<u32> = if step % 5 == 4 { limits.clone() } else { vec![*r.pick(&limits)] };
         check_registry(&mut Acc2(acc), &w, &lim, "after step");
+        if r.chance(1, 4) {
+            let l = *r.pick(&[1u32, 2, 3, 5]);
+            probe_paging_with_removed_cursor(acc, &mut w, l, "after step");
+        }
         acc.evals += 1;
         acc.class_only(&[w.pairs.len() as u64, w.trios.len() as u64, w.vaults.len() as u64, w.incentives.len() as u64, op / 10]);
     }
